@@ -93,3 +93,14 @@ def register_all(prop):
                "sessions exist only for signed requests naming a live xtcp proxy and are removed after timeout / completion. non-trivial = a hard side, a "
                "non-empty history, or malformed input."),
          assumptions=["real NATs are not simulated: 'find each other' is shown on unfiltered loopback only", "nathole.NatHoleTimeout set to 1 s through its exported variable"])
+    prop("C15", qshards=8, tshards=16, qlimit=480, tlimit=3000,
+         rule=("manager_chains: chains of 0..4 real HTTP plugins (plugin.NewHTTPPluginOptions) against an in-harness stub server, each plugin with a "
+               "random subset of the six operations and a scripted outcome per operation from {accept unchanged, accept with edited content, reject, "
+               "HTTP 500/404/302, connection reset, malformed JSON, wrong JSON types, empty body, truncated body}; every operation of plugin.Manager is "
+               "called; oracle: consulted == the plugins registered for the operation, in order, up to the first refusal; allowed <=> all consulted "
+               "accepted; each plugin receives its predecessors' edits; the returned content is the last edit; CloseProxy notifies all registered. "
+               "call_sites: a real in-process frps configured with httpPlugins pointing at the stub, driven by a scripted client through Login, "
+               "NewProxy, Ping, NewWorkConn and NewUserConn (tcp, stcp, tcpmux): the operation proceeds <=> the model allows it, the server acts on the "
+               "edited content, unregistered operations reach no stub, CloseProxy notifications arrive for explicit close and session end. "
+               "non-trivial = >= 2 plugins registered for the operation and >= 1 outcome other than accept-unchanged."),
+         assumptions=["bodies 'null' and '{}' (valid JSON) are not generated: the property only speaks of unparsable bodies"])
